@@ -614,6 +614,7 @@ func runC08() {
 		r := seq.New("C08", tier, "exploration")
 		defer r.CrashGuard()
 		r.SetShardMode()
+		defer r.Watch()()
 		var shard, n int
 		fmt.Sscanf(os.Getenv("C08_SHARD"), "%d/%d", &shard, &n)
 		rd := bufio.NewReaderSize(os.Stdin, 1<<20)
